@@ -57,6 +57,14 @@ fn make() -> clap::Command {
 fn run(matches: &clap::ArgMatches) -> Result<()> {
     let repo = gix::Repository::open()?;
     let stack = Stack::current(&repo, InitializationPolicy::RequireInitialized)?;
+
+    // Modifications made by other tools are recorded in the log before the walk through
+    // the log starts, so that they count as an operation of their own.
+    let stack = if stack.is_head_top() {
+        stack
+    } else {
+        stack.log_external_mods(None)?
+    };
     let undo_steps = matches.get_one::<isize>("number").copied().unwrap_or(1);
 
     stack
